@@ -125,6 +125,10 @@ class C06(core.Check):
                     for indent in ((2, 0, 1) if th else (2,)):
                         out.append({"kind": "function", "ft": ft, "inline": inline, "kwonly": kwonly, "indent": indent,
                                     "edd": False, "ww": True})
+        # one deviation from the remaining default options per emitter
+        out.append({"kind": "argparse", "edd": False, "ww": True, "wrapdesc": True})
+        out.append({"kind": "function", "ft": "static", "inline": True, "kwonly": True, "indent": 2, "edd": False, "ww": True, "septab": True})
+        out.append({"kind": "function", "ft": "self", "inline": False, "kwonly": False, "indent": 2, "edd": False, "ww": True, "septab": True})
         return out
 
     def space(self):
@@ -153,12 +157,14 @@ class C06(core.Check):
             if kind == "class":
                 node = emit.class_(ir, class_name="ConfigClass", word_wrap=opts["ww"], emit_default_doc=opts["edd"])
             elif kind == "argparse":
-                node = emit.argparse_function(ir, emit_default_doc=opts["edd"], word_wrap=opts["ww"])
+                node = emit.argparse_function(ir, emit_default_doc=opts["edd"], word_wrap=opts["ww"],
+                                              **({"wrap_description": True} if opts.get("wrapdesc") else {}))
             else:
                 fn, fty = "f", opts["ft"]
                 if opts.get("ftnone"):  # name and type are taken from the IR (the documented Optional arguments)
                     ir["name"], ir["type"], fn, fty = "f", opts["ft"], None, None
                 node = emit.function(ir, function_name=fn, function_type=fty, word_wrap=opts["ww"],
+                                     **({"emit_separating_tab": True} if opts.get("septab") else {}),
                                      emit_default_doc=opts["edd"], indent_level=opts["indent"],
                                      inline_types=opts["inline"], emit_as_kwonlyargs=opts["kwonly"])
             text = to_code(node)
